@@ -80,3 +80,9 @@ Example C01_hyps_hold_4 :
                SSwitch None None [(LCond 13, [SYield 14; SReturn]); (LCond 15, [SAtom 16])];
                SYield 17]] = true.
 Proof. vm_compute. reflexivity. Qed.
+(* init statements that yield (hoisted in front of the loop / switch) *)
+Example C01_hyps_hold_5 :
+  c01_hyps [SFor (Some (SYield 1)) (Some 2) (Some (SAtom 9)) [SYield 3; SAtom 8];
+            SSwitch (Some (SYield 4)) (Some 5) [(LVals [6], [SAtom 7])];
+            SSwitch (Some (SYield 10)) None [(LCond 11, [SYield 12]); (LDefault, [SAtom 13])]] = true.
+Proof. vm_compute. reflexivity. Qed.
